@@ -233,3 +233,86 @@ class ProcessMatrix(E2Contract):
                 acc = acc + out[a, b] * (E[a] @ inp["rho"] @ S.dagger(E[b]))
         return [eq("defining-action", acc, S.apply_hs(c_sys, g.hs, inp["rho"]),
                    "sum_ab chi_ab E_a rho E_b^dagger == Lambda(rho) for every Hermitian rho")]
+
+
+class KrausRoundTrip(E2Contract):
+    """Kraus extraction goes through an eigendecomposition, sorting, filtering and a phase convention: checked on concrete channels whose Kraus
+    operators are NOT invariant under transposition (a finite list of instances: bounded stand-in, never counted as proved)"""
+    name = "to_kraus_matrices_from_hs / Gate.to_kraus_matrices (instances)"
+    prop = "C02"
+    targets = (G + ":to_kraus_matrices_from_hs", G + ":Gate.to_kraus_matrices", G + ":to_hs_from_kraus_matrices")
+    bounded = "six concrete channels on 1 qubit / 1 qutrit / 2 qubits (rotation about y, amplitude damping alone and after a rotation / a phase gate, qutrit damping, H (x) Ry)"
+    n_conformance = 0
+    frame = False
+    max_paths = 8
+
+    def configs(self, tier):
+        return ["ry(0.7)", "amplitude-damping(1/4)", "ry-then-damping", "phase-then-damping", "qutrit-damping", "2q:h(x)ry"]
+
+    def inputs(self, W, cfg, mk):
+        return dict(probe=mk.real("probe"))
+
+    @staticmethod
+    def _kraus(W, name):
+        import math
+        np = W.np
+        c, s = math.cos(0.35), math.sin(0.35)
+        ry = np.array([[c, -s], [s, c]], dtype=np.complex128)
+        rx = np.array([[c, -1j * s], [-1j * s, c]], dtype=np.complex128)
+        g = 0.25
+        a0 = np.array([[1, 0], [0, math.sqrt(1 - g)]], dtype=np.complex128)
+        a1 = np.array([[0, math.sqrt(g)], [0, 0]], dtype=np.complex128)
+        if name == "ry(0.7)":
+            return "1q", [ry]
+        if name == "amplitude-damping(1/4)":
+            return "1q", [a0, a1]
+        if name == "ry-then-damping":
+            return "1q", [a0 @ ry, a1 @ ry]
+        if name == "phase-then-damping":
+            ph = np.array([[1, 0], [0, 1j]], dtype=np.complex128)
+            return "1q", [a0 @ ph, a1 @ ph]
+        if name == "random-cptp-rank3":
+            import random
+            rng = random.Random(12345)
+            import numpy
+            ks = [numpy.array([[complex(rng.gauss(0, 1), rng.gauss(0, 1)) for _ in range(2)] for _ in range(2)]) for _ in range(3)]
+            tot = sum(k.conj().T @ k for k in ks)
+            w, v = numpy.linalg.eigh(tot)
+            inv_sqrt = (v / numpy.sqrt(w)) @ v.conj().T
+            return "1q", [np.array((k @ inv_sqrt).tolist(), dtype=np.complex128) for k in ks]
+        if name == "qutrit-shift-mix":
+            X = np.array([[0, 0, 1], [1, 0, 0], [0, 1, 0]], dtype=np.complex128)
+            D = np.array([[1, 0, 0], [0, 1j, 0], [0, 0, -1]], dtype=np.complex128)
+            return "1qt", [math.sqrt(0.7) * X, math.sqrt(0.3) * (D @ X)]
+        if name == "qutrit-damping":
+            b0 = np.array([[1, 0, 0], [0, math.sqrt(1 - g), 0], [0, 0, math.sqrt(1 - g)]], dtype=np.complex128)
+            b1 = np.array([[0, math.sqrt(g), 0], [0, 0, 0], [0, 0, 0]], dtype=np.complex128)
+            b2 = np.array([[0, 0, 0], [0, 0, math.sqrt(g)], [0, 0, 0]], dtype=np.complex128)
+            return "1qt", [b0, b1, b2]
+        h = np.array([[1, 1], [1, -1]], dtype=np.complex128) / math.sqrt(2)
+        return "2q", [np.kron(h, ry)]
+
+    def run(self, W, cfg, inp):
+        np = W.np
+        s, kraus = self._kraus(W, cfg)
+        c_sys = make_csys(W, s)
+        hs = np.real(W.S.hs_from_kraus(c_sys, kraus))
+        g = W.mod(G)
+        got = g.to_kraus_matrices_from_hs(c_sys, hs)
+        gate = g.Gate(c_sys, hs, is_physicality_required=False)
+        return dict(hs=hs, back=W.S.hs_from_kraus(c_sys, got) if len(got) else None, n=len(got), n_in=len(kraus),
+                    tp=sum((np.conjugate(k).T @ k for k in got[1:]), np.conjugate(got[0]).T @ got[0]) if len(got) else None,
+                    method=W.S.hs_from_kraus(c_sys, gate.to_kraus_matrices()), dim=c_sys.dim)
+
+    def post(self, W, cfg, inp, out):
+        np, S = W.np, W.S
+        tol = 1e-9
+        close = lambda a, b: S.And(*[S.abs(x - y) <= tol for x, y in zip(S.flat(a), S.flat(b))])
+        if out["back"] is None:
+            return [true("kraus-operators-exist", False, "a completely positive map has a Kraus representation")]
+        return [true("kraus-operators-exist", True, "a completely positive map has a Kraus representation"),
+                eq("number-of-kraus-operators==rank", out["n"], out["n_in"], "as many Kraus operators as the Choi rank (the instances have linearly independent Kraus operators)"),
+                true("kraus-of-hs-reproduce-hs", S.And(close(np.real(out["back"]), out["hs"]), close(np.imag(out["back"]), 0 * out["hs"])),
+                     "to_hs_from_kraus(to_kraus_from_hs(hs)) == hs: the extracted operators denote the same map"),
+                true("completeness", close(out["tp"], np.eye(out["dim"], dtype=np.complex128)), "sum K^dagger K == I for a trace-preserving map"),
+                true("Gate.to_kraus_matrices-agrees", close(np.real(out["method"]), out["hs"]), "the method form gives the same map")]
